@@ -71,6 +71,9 @@ class Eq:
                 if abs(d.cval()) > core.frac(thr):
                     return core.FALSE
                 continue
+            b = core.poly_absbound(d)
+            if b is not None and b <= core.frac(thr):
+                continue            # |d| <= thr over the whole box by coefficient-wise interval arithmetic (rounding-size residues)
             parts.append(core._cmp0(d.sub(t), "le"))
             parts.append(core._cmp0(d.add(t), "ge"))
         return s_and(parts)
@@ -269,6 +272,58 @@ class PathVerdict:
         self.replay = None
         self.label = None
         self.relaxed_only = False
+        self.cross = {"agree": 0, "disagree": 0, "unknown": 0}
+
+
+CROSS = {"on": None, "budget": 0}
+
+
+def cross_enabled():
+    """second-solver cross-check of `unsat` verdicts (cvc5 binary on the same SMT-LIB text): the first 3 (quick) / 20 (thorough)
+    verdicts of each obligation; VERIF_CROSS=1: all of them, VERIF_CROSS=0: none"""
+    if CROSS["on"] is None:
+        from shutil import which
+        v = os.environ.get("VERIF_CROSS")
+        CROSS["on"] = bool(which("cvc5")) and v != "0"
+        CROSS["all"] = (v == "1")
+    if not CROSS["on"]:
+        return False
+    if CROSS["all"]:
+        return True
+    return CROSS["budget"] > 0
+
+
+def cross_check_unsat(solver, pv, tlimit_s=10):
+    """z3 said unsat: ask cvc5.  `sat` from cvc5 is a disagreement (the verdict is then not trusted); unknown / timeout / error is
+    counted and changes nothing"""
+    if not cross_enabled():
+        return True
+    CROSS["budget"] -= 1
+    import tempfile
+    txt = "(set-logic ALL)\n" + solver.to_smt2()
+    fd, path = tempfile.mkstemp(suffix=".smt2", prefix="symq_x_")
+    os.write(fd, txt.encode())
+    os.close(fd)
+    try:
+        pr = subprocess.run(["cvc5", f"--tlimit={int(tlimit_s * 1000)}", path], capture_output=True, text=True, timeout=tlimit_s + 10)
+        out = (pr.stdout or "").strip().split("\n")[0].strip()
+        if os.environ.get("SYMQ_DEBUG") and out not in ("sat", "unsat"):
+            print("cross_check:", repr((pr.stdout or "")[:300]), repr((pr.stderr or "")[:300]), file=sys.stderr)
+    except subprocess.TimeoutExpired:
+        out = "unknown"
+    finally:
+        try:
+            os.unlink(path)
+        except OSError:
+            pass
+    if out == "unsat":
+        pv.cross["agree"] += 1
+        return True
+    if out == "sat":
+        pv.cross["disagree"] += 1
+        return False
+    pv.cross["unknown"] += 1
+    return True
 
 
 def _solver(timeout_ms):
@@ -449,6 +504,10 @@ def decide_path(ob, path, claims, assume_f, replay_fn, dump=None):
             pv.status = "inconclusive"
             pv.detail = "vacuous path: bounds, assumptions, path condition and definitions are jointly unsatisfiable"
             return pv
+        if not cross_check_unsat(s, pv):
+            pv.status = "inconclusive"
+            pv.detail = "solver disagreement: z3 unsat, cvc5 sat on the same SMT-LIB text"
+            return pv
         pv.status = "holds"
         pv.relaxed_only = bool(monos)
         return pv
@@ -492,6 +551,21 @@ def decide_path(ob, path, claims, assume_f, replay_fn, dump=None):
             return pv
     candidates = []
     exact_needed = bool(monos) or any(d[1] is not None for d in path.defs)
+    if r == "sat" and os.environ.get("SYMQ_DEBUG"):
+        try:
+            m_ = s.model()
+            for c in claims:
+                nz_ = _claims_neg([c])
+                if nz_.k == "const":
+                    continue
+                ev_ = m_.eval(nz_.z3(), model_completion=True)
+                if not z3.is_false(ev_):
+                    print("relaxed model falsifies claim:", getattr(c, "label", c), str(ev_)[:200], str(nz_)[:300], file=sys.stderr)
+                    if isinstance(c, Eq):
+                        for d_ in (c.diffs() or []):
+                            print("   diff", str(d_)[:400], "absbound", core.poly_absbound(d_), file=sys.stderr)
+        except Exception as e_:
+            print("debug eval failed", e_, file=sys.stderr)
     if r == "sat":
         candidates.append(("relaxed" if exact_needed else "exact", s.model()))
         if exact_needed:
@@ -546,7 +620,9 @@ def decide_path(ob, path, claims, assume_f, replay_fn, dump=None):
     if candidates:
         has_eq = any(isinstance(c, Eq) for c in claims)
         found = False
-        for margin in (1e-3, 1e-6, 1e-9):
+        # (margin for bounds / assumptions, margin for the path condition): a model that satisfies the branch conditions only barely
+        # follows another path when replayed in floating point, so models strictly inside the path are tried first
+        for margin, pcm in ((1e-3, 1e-6), (1e-6, 1e-9), (1e-3, 0.0), (1e-6, 0.0), (1e-9, 0.0)):
             for thr in ((1e-2, 1e-5, None) if has_eq else (None,)):
                 core.CTX.monos = set(path.monos)
                 negw = _claims_neg(claims, thr)
@@ -556,8 +632,9 @@ def decide_path(ob, path, claims, assume_f, replay_fn, dump=None):
                 s3 = _solver(min(ob.solver_timeout_ms, 20000))
                 s3.add(core.bounds_constraints(margin))
                 s3.add([a.tighten(margin).z3() for a in assume_f])
-                s3.add([c.z3() for c in path.pc])
+                s3.add([(c.tighten(pcm) if pcm else c).z3() for c in path.pc])
                 s3.add([d[0] for d in path.defs if d[0] is not None])
+                tag = f"robust(margin={margin},path margin={pcm},thr={thr})"
                 if exact_needed:
                     t_ = time.time()
                     r3, vals3 = external_check(list(s3.assertions()) + _exact_constraints(path, set(core.CTX.monos)) + [negwz],
@@ -565,7 +642,7 @@ def decide_path(ob, path, claims, assume_f, replay_fn, dump=None):
                     pv.queries += 1
                     pv.solver_s += time.time() - t_
                     if r3 == "sat" and vals3 is not None:
-                        candidates.insert(0, (f"robust(margin={margin},thr={thr})", vals3))
+                        candidates.insert(0, (tag, vals3))
                         found = True
                         break
                     if r3 == "unknown":
@@ -573,7 +650,7 @@ def decide_path(ob, path, claims, assume_f, replay_fn, dump=None):
                     continue
                 s3.add(negwz)
                 if _check(s3, pv, 25.0) == "sat":
-                    candidates.insert(0, (f"robust(margin={margin},thr={thr})", s3.model()))
+                    candidates.insert(0, (tag, s3.model()))
                     found = True
                     break
             if found:
@@ -598,7 +675,22 @@ def decide_path(ob, path, claims, assume_f, replay_fn, dump=None):
 
 
 def replay_concrete(ob, vals, path_kind="ok", exc_type=None):
-    """run the real code on plain numpy at the model point.  Returns (violated, label, detail)"""
+    """run the real code on plain numpy at the model point.  Returns (violated, label, detail).
+    ob.replay_variants (optional): list of input overrides tried in turn -- used to choose among the concrete stand-ins of
+    uninterpreted stubs (a counterexample of a stub-level obligation is a point TOGETHER WITH an interpretation of the stubs); the
+    override that reproduces is written into vals, so the replay file carries it."""
+    last = (False, None, "no replay variant")
+    for var in (getattr(ob, "replay_variants", None) or [{}]):
+        v2 = dict(vals)
+        v2.update(var)
+        last = _replay_concrete_one(ob, v2, path_kind, exc_type)
+        if last[0]:
+            vals.update(var)
+            return last
+    return last
+
+
+def _replay_concrete_one(ob, vals, path_kind="ok", exc_type=None):
     cr = ConcreteRun(ob, vals)
     if not cr.assume_ok:
         return False, None, "assumptions do not hold at the model point (rounding)"
@@ -692,6 +784,9 @@ def _fmt_vals(vals, n=6):
 def run_obligation(ob, seed=0, tier="quick", collect_functions=True):
     """returns a JSON-able result dict"""
     t0 = time.time()
+    os.environ["VERIF_TIER_RUNNING"] = tier
+    CROSS["on"] = None
+    CROSS["budget"] = 20 if tier == "thorough" else 3
     core.reset_registry()
     core.CTX.__init__()
     core.CTX.eager_ite = bool(getattr(ob, "eager_ite", False))
@@ -806,6 +901,8 @@ def run_obligation(ob, seed=0, tier="quick", collect_functions=True):
                 pv.detail = f"{p.kind}: {p.value}"
             res["queries"] += pv.queries
             res["solver_s"] += pv.solver_s
+            for k_, v_ in pv.cross.items():
+                res.setdefault("cross", {"agree": 0, "disagree": 0, "unknown": 0})[k_] += v_
             if pv.relaxed_only:
                 res["relaxed_paths"] += 1
             if pv.status == "violation":
@@ -964,6 +1061,7 @@ def run_tasks(modname, tier, order, seed, jobs, specs, verbose=False, hard_timeo
         done = []
         for idx, (p, pc, t0) in running.items():
             r = None
+            alive = p.is_alive()        # sampled BEFORE the pipe is polled: a child that wrote its result and exited in between is not "dead"
             if pc.poll():
                 try:
                     got = pc.recv()
@@ -972,7 +1070,7 @@ def run_tasks(modname, tier, order, seed, jobs, specs, verbose=False, hard_timeo
                     r = None
                 if r is None:
                     r = _blank_result(specs[idx], "worker process failed while running this obligation")
-            elif not p.is_alive():
+            elif not alive:
                 r = _blank_result(specs[idx], f"worker process died (exit code {p.exitcode}) - solver crash?")
             elif time.time() - t0 > hard_timeout:
                 p.kill()
@@ -1119,6 +1217,9 @@ def build_evidence(prop, tier, seed, results, extra, wall, n_viol, level, known_
             "functions_encoded": functions, "stubs": stubs, "outside_the_claim": outside,
             "translator_validation_points": sum(r["tv_points"] for r in results),
             "paths_decided_under_monomial_relaxation": sum(r["relaxed_paths"] for r in results),
+            "second_solver_cross_check": dict({k_: sum(r.get("cross", {}).get(k_, 0) for r in results) for k_ in ("agree", "disagree", "unknown")},
+                                              solver="cvc5 binary (" + (subprocess.run(["cvc5", "--version"], capture_output=True, text=True).stdout.split("\n")[0] if __import__("shutil").which("cvc5") else "absent") + ")",
+                                              rule="every `unsat` (= holds) verdict of the main per-path query is re-decided by cvc5 on the same SMT-LIB text: the first 3 (quick tier) / 20 (thorough tier) per obligation, all with VERIF_CROSS=1; cvc5 `sat` makes the path inconclusive"),
             "known_findings_reported": known_hit,
             "per_obligation": per_ob, "extra_engines": [{k: v for k, v in e.items() if k != "samples"} for e in extra],
             "samples": samples, "exhaustive": False,
